@@ -66,6 +66,8 @@ type Client struct {
 	NotifyReceivedErr func(addrs []btcutil.Address) error
 	// FailNth makes the n-th (1-based) call of the named method fail once.
 	FailNth map[string]int
+	// FailHeightOnce makes GetBlockHash fail once when asked for this height (0: off).
+	FailHeightOnce int64
 	counts  map[string]int
 }
 
@@ -371,6 +373,13 @@ func (cl *Client) GetBlockHash(height int64) (*chainhash.Hash, error) {
 	if err := cl.injected("GetBlockHash"); err != nil {
 		return nil, err
 	}
+	cl.mu.Lock()
+	if cl.FailHeightOnce != 0 && cl.FailHeightOnce == height {
+		cl.FailHeightOnce = 0
+		cl.mu.Unlock()
+		return nil, fmt.Errorf("simchain: injected failure of GetBlockHash(%d)", height)
+	}
+	cl.mu.Unlock()
 	b := cl.C.At(int32(height))
 	if b == nil {
 		return nil, fmt.Errorf("simchain: no block at height %d", height)
@@ -440,7 +449,13 @@ func (cl *Client) SendRawTransaction(tx *wire.MsgTx, allowHighFees bool) (*chain
 	if err != nil {
 		return nil, err
 	}
-	cl.C.AddToMempool(tx)
+	// The wallet re-offers its unconfirmed transactions from a goroutine of
+	// its own, so an offer may arrive for a transaction the model has
+	// confirmed meanwhile: that is a no-op for the model (it must never sit
+	// in the mempool and in a block at once).
+	if cl.C.ConfirmedIn(h) == nil {
+		cl.C.AddToMempool(tx)
+	}
 	return &h, nil
 }
 
